@@ -436,7 +436,7 @@ theorem compaction_mu (k : KV) (w : k.WF) (hts : 0 < k.tableSize) (now : Int) (o
     have htnf : t ∈ k.newestFirst := by simp [newestFirst, htm]
     have hg : t.garbage > 0 := by
       have ha := w.alloc t htnf
-      simp only [needsCompaction, decide_eq_true_eq] at hneed
+      simp only [needsCompaction, Bool.or_eq_true, Bool.and_eq_true, beq_iff_eq, decide_eq_true_eq] at hneed
       omega
     have hb_mem : ∀ p ∈ evictBatch t order now, ∃ s ∈ t.slots, t.find p.1 = some s ∧ p.2 = { s.r with la := now } := by
       intro p hpm
